@@ -186,6 +186,7 @@ class Data:
   """Allocates sentinel-tagged strings and remembers the role of each."""
   def __init__(self, rng, hostile=True, neutral=False):
     self.rng, self.hostile, self.neutral, self.n, self.roles, self.text = rng, hostile, neutral, 0, {}, {}
+    self.exotic = False
   def s(self, role, long=False, pathsafe=False):
     self.n += 1
     sent = 'ZQ%dX' % self.n
@@ -233,7 +234,7 @@ class Opaque:
 def gen_value(rng, data, depth, stats=None, sym=False):
   """A nested value: dict / list / tuple / pg.Dict / pg.List / pg.Object / leaves."""
   p = pg()
-  kinds = ['int', 'str', 'str', 'longstr', 'none', 'bool', 'float', 'opaque'] + (['dict', 'dict', 'list', 'tuple', 'pgdict', 'pglist', 'object', 'object'] if depth > 0 else [])
+  kinds = ['int', 'str', 'str', 'longstr', 'none', 'bool', 'float', 'opaque'] + (['exotic'] if data.exotic else []) + (['dict', 'dict', 'list', 'tuple', 'pgdict', 'pglist', 'object', 'object'] if depth > 0 else [])
   k = rng.choice(kinds)
   if sym and k == 'tuple':      # symbolic containers convert nested containers; keep the shapes stable
     k = 'list'
@@ -246,6 +247,16 @@ def gen_value(rng, data, depth, stats=None, sym=False):
   if k == 'bool': return rng.choice([True, False])
   if k == 'float': return rng.choice([1.5, -0.25, 1e100, float('inf')])
   if k == 'opaque': return Opaque(data.s('opaque-repr'))
+  if k == 'exotic':     # values with their own view extension or format: oracle only
+    e = rng.choice(['ref', 'diff', 'bytes', 'set', 'class', 'spec', 'oneof', 'partial'])
+    if e == 'ref': return p.Ref(rng.choice([lambda: object_class('Foo', 1)(f0=data.s('leaf-str')), lambda: {data.s('dict-key'): 1}])())
+    if e == 'diff': return p.diff(p.Dict({'a': data.s('leaf-str'), 'b': [1, data.s('leaf-str')]}), p.Dict({'a': data.s('leaf-str'), 'c': 2}), mode=rng.choice(['diff', 'both']))
+    if e == 'bytes': return data.s('leaf-str').encode('utf-8')
+    if e == 'set': return frozenset([data.s('leaf-str'), 1])
+    if e == 'class': return rng.choice([int, Opaque, object_class('FooBar', 0)])
+    if e == 'spec': return p.typing.Enum(data.s('leaf-str'), [data.text['ZQ%dX' % data.n], 'b'])
+    if e == 'oneof': return p.oneof([data.s('leaf-str'), data.s('leaf-str')])
+    return object_class('FooBar', 2).partial(f0=data.s('leaf-str'))
   n = rng.choice([0, 1, 1, 2, 2, 3])
   if k in ('dict', 'pgdict'):
     d = {}
@@ -431,6 +442,7 @@ def build_case(spec):
     return value, kw, data
   srng = random.Random(spec['sseed'])
   data = Data(random.Random(spec['dseed']), hostile=spec['hostile'], neutral=spec.get('neutral', False))
+  data.exotic = spec.get('extra') == 'exotic'
   value = gen_value(srng, data, spec['depth'])
   while child_items(value) is None and srng.random() < 0.8:     # mostly containers at the root
     value = gen_value(srng, data, spec['depth'])
@@ -440,7 +452,7 @@ def build_case(spec):
 
 def extra_options(extra, value, rng, data):
   """Options that the model does not cover (oracle only)."""
-  if not extra:
+  if not extra or extra == 'exotic':
     return {}
   if extra == 'debug': return dict(debug=True)
   if extra == 'css_classes': return dict(css_classes=['my-class', 'other'])
@@ -457,7 +469,7 @@ def extra_options(extra, value, rng, data):
     keys = [k for k, _ in (child_items(value) or []) if not (isinstance(k, str) and any(c in k for c in '.[]'))]
     return dict(child_config={k: dict(collapse_level=None, enable_summary_tooltip=False) for k in keys[:1]} | {'__default__': dict(key_style='label')})
   raise ValueError(extra)
-EXTRAS = ['debug', 'css_classes', 'title', 'colors', 'color_fn', 'highlight', 'key_style_fn', 'include_fn', 'uncollapse_fn', 'hide_default', 'child_config']
+EXTRAS = ['exotic', 'debug', 'css_classes', 'title', 'colors', 'color_fn', 'highlight', 'key_style_fn', 'include_fn', 'uncollapse_fn', 'hide_default', 'child_config']
 
 def render(value, kw, content_only=True):
   return pg().to_html_str(value, content_only=content_only, **kw)
@@ -531,7 +543,7 @@ def expected_visible(value, kw):
   go(value, 0, [])
   return out
 
-def oracle(value, kw, data, twin=None):
+def oracle(value, kw, data, twin=None, presence=True):
   """The property on the real output.  Returns [(signature, what)]."""
   hits = []
   before, jbefore, tls0 = snap(value), json_or_none(value), tls_state()
@@ -584,7 +596,7 @@ def oracle(value, kw, data, twin=None):
       hits.append(('C20/tokenizer-disagreement', 'html.parser and the strict tokenizer read different documents'))
     # (e) every visible key and leaf is present as text
     texts = [t[1] for t in walk(tree) if t[0] == 1]
-    vis = expected_visible(value, kw)
+    vis = expected_visible(value, kw) if presence else []
     for what, text in (vis or []):
       if text and not any(text == x if what == 'key' else text in x for x in texts):
         hits.append(('C20/missing/%s' % what, '%s %r is not present as text in the output' % (what, text))); break
@@ -739,17 +751,17 @@ def run(ctx):
   specs = list(LITERALS)
   rows = pairwise(OPTION_SPACE, random.Random(rng.getrandbits(32)))
   ctx.extra['pairwise_rows'] = len(rows)
-  nvalues = ctx.scale(10, 60)
+  nvalues = ctx.scale(30, 80)
   for vi in range(nvalues):
     sseed = rng.getrandbits(32)
     for row in rows:
       specs.append(dict(kind='gen', sseed=sseed if vi % 2 == 0 else rng.getrandbits(32), dseed=rng.getrandbits(32), hostile=True, sym=row, depth=rng.choice([1, 2, 2, 3])))
-  for _ in range(ctx.scale(150, 3000)):      # default options, deeper values
+  for _ in range(ctx.scale(400, 4000)):      # default options, deeper values
     specs.append(dict(kind='gen', sseed=rng.getrandbits(32), dseed=rng.getrandbits(32), hostile=rng.random() < 0.9, sym=dict(DEFAULTS), depth=rng.choice([2, 3, 4])))
   if ctx.thorough:                           # full product of the modelled options on small values
     small = [(n, v) for n, v in OPTION_SPACE]
     for combo in itertools.product(*[range(len(v)) for _, v in small]):
-      if rng.random() < 0.12:
+      if True:
         specs.append(dict(kind='gen', sseed=rng.getrandbits(32), dseed=rng.getrandbits(32), hostile=True,
                           sym={small[i][0]: small[i][1][c] for i, c in enumerate(combo)}, depth=rng.choice([1, 2])))
   nextra = 0
@@ -775,10 +787,10 @@ def run(ctx):
     if spec['kind'] == 'gen' and rng.random() < 0.25:
       tv, tkw, _ = build_case(dict(spec, neutral=True))
       twin = (tv, tkw)
-    for sig, what in oracle(value, kw, data, twin):
+    for sig, what in oracle(value, kw, data, twin, presence=spec.get('extra') != 'exotic'):
       ctx.hit(sig, what, dict(spec=spec, value=repr(value)[:300], options=repr(kw)[:300]))
     hostile_data = any(html_lib.escape(d) != d for d in data.text.values())
-    modelled = set(kw) <= MODELLED and not any(callable(v) for v in kw.values())
+    modelled = set(kw) <= MODELLED and not any(callable(v) for v in kw.values()) and spec.get('extra') != 'exotic'
     key = json.dumps(spec, sort_keys=True, default=str)
     ctx.count(key, nontrivial=hostile_data,
               sample=dict(value=repr(value)[:200], options=repr(kw)[:200]) if hostile_data and spec['kind'] == 'gen' and len(ctx.samples) < 4 else None,
@@ -865,7 +877,7 @@ def replay(ctx, rp):
     hits, _ = oracle_control(spec)
   else:
     value, kw, data = build_case(spec)
-    hits = oracle(value, kw, data)
+    hits = oracle(value, kw, data, presence=spec.get('extra') != 'exotic')
   for h in hits:
     print('  still fails:', h)
   return not hits
